@@ -32,6 +32,7 @@ DstInputs(c, xs, xd, cats) ==
   \cup (IF "fd" \in cats THEN { Fsm(DFd(c, h, (k - 1) * c.segLen, IF k * c.segLen > n THEN n - (k - 1) * c.segLen ELSE c.segLen)) : k \in 1..NSeg(c) } ELSE {})
   \cup (IF "fdodd" \in cats THEN { Fsm(DFd(c, h, o, l)) : o \in {1, n}, l \in {0, 2} } ELSE {})
   \cup (IF "wrej" \in cats THEN { [k |-> "fsm", a |-> DFd(c, h, 0, c.segLen), w |-> TRUE] } ELSE {})
+  \cup (IF "mdwrej" \in cats THEN { [k |-> "fsm", a |-> DMd(c, h), w |-> TRUE] } ELSE {})   \* create / truncate refused
   \cup (IF "eof" \in cats THEN {Fsm(DEof(c, h, "NO_ERROR", n, TRUE))} ELSE {})
   \cup (IF "eofodd" \in cats THEN {Fsm(DEof(c, h, "NO_ERROR", n, FALSE)), Fsm(DEof(c, h, "NO_ERROR", IF n > 0 THEN n - 1 ELSE 1, TRUE))} ELSE {})
   \cup (IF "eofcancel" \in cats THEN {Fsm(DEof(c, h, "CANCEL_REQUEST_RECEIVED", IF n > 1 THEN n - 1 ELSE n, TRUE))} ELSE {})
